@@ -1,2 +1,144 @@
-"""Passing twins: behaviour-preserving refactorings that must stay silent."""
-TWINS = []
+"""Passing twins: behaviour-preserving edits of /repo/pytato on which every
+check must stay silent (exit 0).  They are the counterpart of the breaking
+variants in variants.json: a rule that fires on one of these is matching text
+rather than the property, and the thorough tier fails with ANALYSIS-ERROR.
+
+Edit kinds (see runner._apply):
+  {"file", "old", "new"}            literal text replacement (first occurrence)
+  {"file", "func", "rename": {..}}  rename local identifiers inside one function
+"""
+
+ALL = ["C01", "C02", "C03", "C04", "C05", "C06", "C07", "C09", "C10", "C12",
+       "C13", "C14", "C15", "C16", "C17", "C18", "C19", "C20"]
+
+LC = "pytato/target/loopy/codegen.py"
+NL = "pytato/target/python/numpy_like.py"
+EDL = "pytato/transform/einsum_distributive_law.py"
+AN = "pytato/analysis/__init__.py"
+TR = "pytato/transform/__init__.py"
+
+
+def _t(name, what, edits, props=ALL):
+    return {"name": "twin-" + name, "kind": "twin", "what": what, "props": props,
+            "edits": edits}
+
+
+def _ren(file, func, **ren):
+    return {"file": file, "func": func, "rename": ren}
+
+
+TWINS = [
+    # ---- local renames in the functions the anchored rules look at ----------
+    _t("rename-edl-locals", "rename hlo/rec_x1/rec_x2 in the einsum distributive law",
+       [_ren(EDL, "EinsumDistributiveLawMapper.map_index_lambda",
+             hlo="raised", rec_x1="new_lhs", rec_x2="new_rhs"),
+        _ren(EDL, "EinsumDistributiveLawMapper.map_einsum",
+             distributive_law_descr="descr", iarg="i_operand", arg="operand"),
+        _ren(EDL, "_wrap_einsum_from_ctx", new_args="operands", iarg="k")]),
+    _t("rename-rbe-locals", "rename locals of the no-broadcast einsum rewriter",
+       [_ren("pytato/transform/remove_broadcasts_einsum.py",
+             "EinsumWithNoBroadcastsRewriter.map_einsum",
+             new_args="args_out", new_access_descriptors="descrs_out",
+             acc_descrs="descrs", idim="k", acc_descr="d",
+             axes_to_squeeze_list="squeeze_list", descr_to_axis_len="axis_len_of"),
+        _ren("pytato/transform/remove_broadcasts_einsum.py",
+             "EinsumWithNoBroadcastsRewriter._squeeze_axes", idim="k"),
+        _ren("pytato/transform/remove_broadcasts_einsum.py",
+             "EinsumWithNoBroadcastsRewriter.rec", rec_result="rewritten")]),
+    _t("rename-raiser-locals", "rename inner_expr/children/bin_op in the raiser",
+       [_ren("pytato/raising.py", "index_lambda_to_high_level_op",
+             inner_expr="scalar", children="operands", bin_op="op_type"),
+        _ren("pytato/raising.py", "_as_array_or_scalar",
+             binding_to_subscript="expected_subscript", bnd_name="nm", bnd="ary"),
+        _ren("pytato/raising.py", "_is_idx_lambda_broadcast_op",
+             from_shape="src_shape", to_shape="dst_shape", input_name="nm")]),
+    _t("rename-shape-decision-locals", "rename locals of the affine shape comparison",
+       [_ren("pytato/utils.py", "are_shape_components_equal",
+             dim1_minus_dim2="difference", aff="affine", space="param_space",
+             named_inputs="params", inputs="all_inputs"),
+        _ren("pytato/utils.py", "are_shapes_equal", dim1="a", dim2="b"),
+        _ren("pytato/utils.py", "ShapeToISLExpressionMapper.map_size_param",
+             dt="dim_type", pos="idx")]),
+    _t("rename-codegen-locals", "rename locals of the loopy code generator",
+       [_ren(LC, "CodeGenMapper.map_index_lambda",
+             store_result="must_store", loopy_expr="generated", prstnt_ctx="pctx",
+             result="impl_result", il_expr="scalar_expr"),
+        _ren(LC, "generate_loopy",
+             compute_order="order_of_outputs", preproc_result="pre", cg_mapper="cgm"),
+        _ren(LC, "CodeGenMapper.map_loopy_call", callee_kernel="callee"),
+        _ren(LC, "add_store", loopy_expr_context="ectx", loopy_expr="rhs")]),
+    _t("rename-numpy-target-locals", "rename locals of the Python/NumPy target",
+       [_ren(NL, "generate_numpy_like", cgen_mapper="mapper_", result_var="res"),
+        _ren(NL, "NumpyCodegenMapper.map_index_lambda", hlo="raised"),
+        _ren(NL, "NumpyCodegenMapper.map_data_wrapper", name="arg_name")]),
+    _t("rename-analysis-locals", "rename locals of the analysis mappers",
+       [_ren(AN, "CallSiteCountMapper.map_function_definition",
+             new_mapper="callee_mapper", subexpr="ret"),
+        _ren(AN, "get_nusers", list_of_users_collector="collector", ary="node",
+             users="its_users"),
+        _ren(AN, "MaterializedNodeCollector.post_visit", subexpr="bound"),
+        _ren(AN, "TagCountMapper.rec", s="below", inputs="cache_inputs", tag="t")]),
+    _t("rename-function-locals", "rename locals of trace_call / FunctionDefinition.__call__",
+       [_ren("pytato/function.py", "trace_call", returns="rets", return_type="rtype",
+             function="fdef", output="out"),
+        _ren("pytato/function.py", "FunctionDefinition.__call__", call_site="site")]),
+    _t("rename-dedup-locals", "rename cache_key in the data wrapper de-duplicator",
+       [_ren(TR, "DataWrapperDeduplicator.map_data_wrapper", cache_key="k")]),
+    _t("rename-distributed-locals", "rename locals of tag numbering",
+       [_ren("pytato/distributed/tags.py", "number_distributed_tags",
+             sym_tag_to_int_tag="numbering", all_tags="gathered", sym_tag="t",
+             root_rank="root", tags="my_tags", recv="r", send="s_", sends="ss")]),
+    _t("rename-identical-helper-params", "rename loop variables of _entries_are_identical",
+       [_ren("pytato/array.py", "_entries_are_identical", a_k="av", k="key",
+             a_i="x", b_i="y")]),
+    _t("rename-reviewed-loop-variables",
+       "rename loop variables inside iterations listed in the reviewed table",
+       [_ren(LC, "add_store", tag="t_", axis="ax_"),
+        _ren("pytato/array.py", "make_index_lambda", redn_var="rv_"),
+        _ren("pytato/codegen.py", "check_validity_of_outputs", ary="a_"),
+        _ren("pytato/transform/lower_to_index_lambda.py", "_get_reshaped_indices",
+             old_ax_len_product="old_prod", new_ax_len_product="new_prod")]),
+    _t("rename-lowering-index-variable", "rename idx in one of the three index lowerings",
+       [_ren("pytato/transform/lower_to_index_lambda.py",
+             "ToIndexLambdaMixin.map_contiguous_advanced_index", idx="index_")]),
+    # ---- moved lines, reordered tables, reformatting -------------------------
+    _t("shift-lines", "insert comment lines at the top of the central modules",
+       [{"file": f, "old": "from __future__ import annotations\n",
+         "new": "from __future__ import annotations\n# moved\n# down\n# by\n# four\n"}
+        for f in ("pytato/array.py", TR, LC, AN, "pytato/raising.py",
+                  "pytato/equality.py", "pytato/utils.py",
+                  "pytato/transform/lower_to_index_lambda.py")]),
+    _t("reorder-raiser-table", "reorder the entries of the raiser's binary-op table",
+       [{"file": "pytato/raising.py",
+         "old": "                                  p.LogicalOr:  BinaryOpType.LOGICAL_OR,\n"
+                "                                  p.LogicalAnd: BinaryOpType.LOGICAL_AND,\n",
+         "new": "                                  p.LogicalAnd: BinaryOpType.LOGICAL_AND,\n"
+                "                                  p.LogicalOr:  BinaryOpType.LOGICAL_OR,\n"}]),
+    _t("reorder-predicate-conjuncts",
+       "swap the two isinstance conjuncts of the integer fast path",
+       [{"file": "pytato/utils.py",
+         "old": "if isinstance(dim1, INT_CLASSES) and isinstance(dim2, INT_CLASSES):",
+         "new": "if isinstance(dim2, INT_CLASSES) and isinstance(dim1, INT_CLASSES):"}]),
+    _t("strip-stored-tag-other-arm",
+       "write the ImplStored stripping with the condition the other way round",
+       [{"file": LC,
+         "old": """        {name: (output.without_tags(ImplStored(),
+                                    verify_existence=False)
+                if not isinstance(output,
+                                  InputArgumentBase)
+                else output)""",
+         "new": """        {name: (output
+                if isinstance(output, InputArgumentBase)
+                else output.without_tags(ImplStored(), verify_existence=False))"""}]),
+    _t("sorted-twice", "sort an already sorted iteration once more",
+       [{"file": LC, "old": "for name in sorted(expr.bindings)},",
+         "new": "for name in sorted(sorted(expr.bindings))},"}], props=["C17", "C13", "C05"]),
+    _t("squeeze-membership-positive",
+       "write the squeeze subscript with the positive membership test",
+       [{"file": "pytato/transform/remove_broadcasts_einsum.py",
+         "old": "slice(None) if idim not in axes_to_squeeze else 0",
+         "new": "0 if idim in axes_to_squeeze else slice(None)"}]),
+    _t("union-augmented", "accumulate dependencies with |= instead of x = x | y",
+       [{"file": LC, "old": "self._depends_on = self._depends_on | other",
+         "new": "self._depends_on |= other"}]),
+]
